@@ -19,8 +19,42 @@ type C05Case struct {
 
 func genIntVal(t *rapid.T) Val { return Val{K: "int", I: int64(rapid.IntRange(-5, 50).Draw(t, "iv"))} }
 
+// genElemOfKind: a primitive of the given kind with a small value (element of a typed container).
+func genElemOfKind(t *rapid.T, k string) Val {
+	switch k {
+	case "str":
+		return VS(rapid.SampledFrom(textWords).Draw(t, "ev-s"))
+	case "bool":
+		return Val{K: "bool", B: rapid.Bool().Draw(t, "ev-b")}
+	case "f32", "f64":
+		return Val{K: k, F: rapid.SampledFrom([]float64{0, 1.5, -2.25, 1e9}).Draw(t, "ev-f")}
+	case "c128":
+		return Val{K: k, F: float64(rapid.IntRange(-2, 2).Draw(t, "ev-re")), I: int64(rapid.IntRange(-2, 2).Draw(t, "ev-im"))}
+	}
+	return Val{K: k, I: clampInt(k, int64(rapid.IntRange(0, 200).Draw(t, "ev-i")))}
+}
+
+var containerElemKinds = []string{"uint8", "uint8", "int8", "int16", "int32", "int64", "uint", "uint16", "uint32", "uint64", "str", "bool", "f32", "f64", "c128"}
+
 func genCompositeVal(t *rapid.T) Val {
-	switch rapid.IntRange(0, 14).Draw(t, "compclass") {
+	switch rapid.IntRange(0, 18).Draw(t, "compclass") {
+	case 15, 16, 17: // slice or array (held by value) of any primitive element type: bytes, bools, floats, ...
+		k := rapid.SampledFrom(containerElemKinds).Draw(t, "elemkind")
+		v := Val{K: rapid.SampledFrom([]string{"slice", "array", "array"}).Draw(t, "seqkind")}
+		n := rapid.IntRange(1, 8).Draw(t, "seqlen")
+		for i := 0; i < n; i++ {
+			v.Elems = append(v.Elems, genElemOfKind(t, k))
+		}
+		return v
+	case 18: // map[string]T for any primitive T
+		k := rapid.SampledFrom(containerElemKinds).Draw(t, "mapelemkind")
+		v := Val{K: "map"}
+		n := rapid.IntRange(1, 4).Draw(t, "mlen")
+		for i := 0; i < n; i++ {
+			v.Keys = append(v.Keys, fmt.Sprintf("k%d", i))
+			v.Elems = append(v.Elems, genElemOfKind(t, k))
+		}
+		return v
 	case 0, 1: // slice of ints
 		n := rapid.IntRange(1, 9).Draw(t, "slen")
 		v := Val{K: "slice"}
@@ -407,7 +441,7 @@ func nodeSites(n *Node, where string, depth int, isRoot bool) []c05Site {
 				n.Op = OpDesc{K: "cmp", I: 1}
 			}
 		}, where + " operator", "cond/operator"})
-		if n.Op.K == "user" {
+		if n.Op.K == "user" || n.Op.K == "uslice" {
 			out = append(out, c05Site{func() { n.Op.Ctx += "x" }, where + " operator context", "cond/operator-context"})
 		}
 		if n.Expr != nil {
